@@ -69,7 +69,21 @@ def main() -> int:
         print(f"[replay] {replay_key}: {'reproduced' if (ctx.violations or ctx.disagreements) else 'not reproduced'}", file=sys.stderr)
     else:
         ctx.driver_ok = lb["build_ok"]
-        mod.run(ctx)
+        try:
+            mod.run(ctx)
+        except Exception as e:  # noqa: BLE001
+            # an exception that escaped every guard: if it was raised inside the library under test (a frame of the traceback
+            # lies in the repository) it is the implementation failing on an input of the property's domain -> violation;
+            # anything else is a defect of the harness itself and must surface as a crash
+            import traceback
+            frames = traceback.extract_tb(e.__traceback__)
+            in_repo = [f for f in frames if str(REPO) in f.filename and "/tests/" not in f.filename]
+            if not in_repo:
+                raise
+            last = in_repo[-1]
+            ctx.violation(f"{prop}:uncaught:{type(e).__name__}", f"the implementation raised {type(e).__name__}: {str(e)[:160]} "
+                          f"({last.filename.split('/')[-1]}:{last.lineno}) outside any guarded call; the run was cut short",
+                          {"where": f"{frames[-1].filename.split('/')[-1]}:{frames[-1].lineno}"})
 
     # 2b. a correspondence or a proof no longer checks but the oracle saw nothing this run: search the real code for a
     #     concrete failing input with further generator seeds (bounded by time) before settling for no-failing-input-found
